@@ -6,6 +6,7 @@ import (
 	"go/ast"
 	"go/token"
 	"go/types"
+	"sort"
 	"strings"
 
 	"golang.org/x/tools/go/ssa"
@@ -132,6 +133,7 @@ func checkC03(p *Prog, r *Report) {
 	ruleC03Set(p, a, r)
 	ruleC03Exec(p, a, r)
 	ruleC03Freeze(p, a, ba, r)
+	ruleC03ArgsConsumed(p, a, r)
 }
 
 // R-C03-EXEC: templates that tags execute were compiled by the referring set: a node field assigned from the set's
@@ -938,4 +940,53 @@ func isFreezeSetD(x ssa.Instruction, field string, depth int) bool {
 		}
 	}
 	return false
+}
+
+// ruleC03ArgsConsumed: "no matter where it is written (… tag arguments …)": a tag parser that returns a node without
+// having looked at all of its arguments lets whatever stands in the rest compile unseen — a banned filter in
+// {% include "missing" if_exists with a=x|upper %} when the parser returns its empty node as soon as the file turns out
+// to be missing. Every successful return of a registered tag parser is reached only after the argument parser was asked
+// whether anything remains (the "malformed arguments" test every tag ends with).
+func ruleC03ArgsConsumed(p *Prog, a *Anchors, r *Report) {
+	r.Begin("R-C03-ARGS", "every registered tag parser asks its argument parser whether tokens remain (arguments.Remaining/Count) on every path to a successful return: no part of a tag's arguments compiles unseen", 10)
+	names := make([]string, 0, len(a.TagParsers))
+	for n := range a.TagParsers {
+		names = append(names, n)
+	}
+	sort.Strings(names)
+	for _, name := range names {
+		f := a.TagParsers[name]
+		if f == nil || f.Blocks == nil || len(f.Params) < 3 {
+			continue
+		}
+		args := f.Params[len(f.Params)-1]
+		asksRemaining := func(x ssa.Instruction) bool {
+			c, ok := x.(*ssa.Call)
+			if !ok || c.Common().StaticCallee() == nil || len(c.Common().Args) == 0 {
+				return false
+			}
+			nm := c.Common().StaticCallee().Name()
+			return (nm == "Remaining" || nm == "Count") && stripLoad(c.Common().Args[0]) == ssa.Value(args)
+		}
+		bad := ""
+		n := 0
+		for _, ret := range returnsOf(f) {
+			if len(ret.Results) != 2 || !isNilConst(res(ret, 1)) || isNilConst(res(ret, 0)) {
+				continue
+			}
+			n++
+			if !MustPass(ret, asksRemaining) {
+				bad = p.InstrPos(ret)
+			}
+		}
+		key := "tag " + name + ":arguments-consumed"
+		switch {
+		case bad != "":
+			r.Bad(key, bad, "the parser of `%s` can return a node without having asked whether arguments remain: what stands in the rest of the tag (a banned filter, a syntax error) compiles unseen on that path", name)
+		case n == 0:
+			r.Trivial(key, p.Pos(f.Pos()), "no successful return")
+		default:
+			r.OK(key, p.Pos(f.Pos()), "%d successful return(s), each after the remaining-arguments test", n)
+		}
+	}
 }
